@@ -350,6 +350,16 @@ class SignatureDescriptor(object):
     def __repr__(self):
         return "%s(%s, %s)" % (self.__class__.__name__, self.name, self.argument_types)
 
+    def __eq__(self, other):
+        return (type(self) is type(other) and self.name == other.name
+                and list(self.argument_types) == list(other.argument_types))
+
+    def __ne__(self, other):
+        return not self == other
+
+    def __hash__(self):
+        return hash((type(self).__name__, self.name, tuple(self.argument_types)))
+
 
 class UserFunctionDescriptor(SignatureDescriptor):
     """
